@@ -33,25 +33,40 @@ func corpus() []*History {
 		Class: "corpus/finding/F2-ambiguous", Universe: f2v, Calls: []CallD{
 			{[]int{0}, []string{"only1"}, multi}, {[]int{0, 1}, []string{"only1"}, single}, {[]int{0, 1}, []string{"only1"}, single}}})
 
-	// ---- C08-F1: install_if order / C08-F3: chained install_if membership ----------
+	// ---- replays of the fixed findings C08-F1 (install_if order) and C08-F3 (chained
+	// install_if membership), fix c03e0c0: every repetition, after any history and in a
+	// fresh process, must give the one answer of the model ---------------------------
 	f1u := []IndexD{{Name: "", Pkgs: []PkgD{
 		p("w", "1", "a", "b", "c", "d"), p("a", "1"), p("b", "1"), p("c", "1"), p("d", "1"),
 		{Name: "a-x", Version: "1", InstallIf: []string{"a"}}, {Name: "b-x", Version: "1", InstallIf: []string{"b"}},
 		{Name: "c-x", Version: "1", InstallIf: []string{"c"}}, {Name: "d-x", Version: "1", InstallIf: []string{"d"}}}}}
-	add(&History{Note: "C08-F1 replay: four install_if packages triggered by one request; their order follows Go's map iteration",
-		Class: "corpus/finding/F1", Universe: f1u, Calls: []CallD{
+	add(&History{Note: "fixed c03e0c0 (was C08-F1): four install_if packages triggered by one request; their order used to follow Go's map iteration, now the dependency list",
+		Class: "corpus/fixed/F1", Universe: f1u, Calls: []CallD{
 			{[]int{0}, []string{"w"}, nil}, {[]int{0}, []string{"w"}, one(0)}, {[]int{0}, []string{"a", "w"}, nil}}})
 	f3u := []IndexD{{Name: "", Pkgs: []PkgD{
 		p("w", "1", "a"), p("a", "1"),
 		{Name: "c", Version: "1", InstallIf: []string{"b"}}, {Name: "b", Version: "1", InstallIf: []string{"a"}}}}}
-	add(&History{Note: "C08-F3 replay: c install_if b, b install_if a: b is inserted into `added` during the range; c is installed only when the iteration reaches the new key",
-		Class: "corpus/finding/F3", Universe: f3u, Calls: []CallD{
+	add(&History{Note: "fixed c03e0c0 (was C08-F3): c install_if b, b install_if a: b is appended during the loop; c used to be installed only when the map iteration reached the new key, now always",
+		Class: "corpus/fixed/F3", Universe: f3u, Calls: []CallD{
 			{[]int{0}, []string{"w"}, nil}, {[]int{0}, []string{"w"}, nil}, {[]int{0}, []string{"a"}, nil}}})
-	add(&History{Note: "envelope of c08_order_deterministic_partial: one install_if package triggered per request",
+	add(&History{Note: "one install_if package triggered per request (the envelope of the former c08_order_deterministic_partial)",
 		Class: "corpus/envelope/iif-single", Universe: []IndexD{{Name: "", Pkgs: []PkgD{
 			p("w", "1", "a", "b"), p("a", "1"), p("b", "1"), p("v", "1", "b"),
 			{Name: "a-x", Version: "1", InstallIf: []string{"a"}}, {Name: "ab-x", Version: "1", InstallIf: []string{"a", "zz"}}}}},
 		Calls: []CallD{{[]int{0}, []string{"w"}, nil}, {[]int{0}, []string{"v"}, nil}, {[]int{0}, []string{"w", "v"}, nil}, {[]int{0}, []string{"a"}, nil}}})
+
+	add(&History{Note: "install_if: chain of three through a package listed before its trigger, name=version keys (right, wrong, shadowed by an unversioned key), a package waiting for two appended ones, two versions under one key; same and different worlds, two index orders",
+		Class: "corpus/envelope/iif-structure", Universe: []IndexD{
+			{Name: "", Pkgs: []PkgD{
+				{Name: "z3", Version: "1", InstallIf: []string{"z2"}}, {Name: "z2", Version: "1", InstallIf: []string{"z1=1"}}, {Name: "z1", Version: "1", InstallIf: []string{"a"}},
+				p("w", "1", "a", "b", "c"), p("a", "1.0"), p("b", "2.0"), p("c", "3.0"),
+				{Name: "a-v", Version: "1", InstallIf: []string{"a=1.0"}}, {Name: "a-w", Version: "1", InstallIf: []string{"a=9.9"}},
+				{Name: "b-v", Version: "1", InstallIf: []string{"b=2.0"}}, {Name: "b-any", Version: "1", InstallIf: []string{"b", "nosuch"}},
+				{Name: "c-op", Version: "1", InstallIf: []string{"c>3.0"}}, {Name: "join", Version: "1", InstallIf: []string{"z3", "a-v"}},
+				{Name: "c-doc", Version: "1.0", InstallIf: []string{"c"}}, {Name: "c-doc", Version: "2.0", InstallIf: []string{"c"}}}},
+			{Name: "", Pkgs: []PkgD{{Name: "late", Version: "1", InstallIf: []string{"join", "c-doc=1.0"}}, p("u", "1", "c-doc", "a")}}},
+		Calls: []CallD{{[]int{0}, []string{"w"}, nil}, {[]int{0, 1}, []string{"w"}, nil}, {[]int{1, 0}, []string{"w"}, nil}, {[]int{0, 1}, []string{"u"}, nil},
+			{[]int{0, 1}, []string{"u", "w"}, nil}, {[]int{0}, []string{"a"}, one(0)}, {[]int{0, 1}, []string{"w"}, nil}}})
 
 	// ---- what the per-call clone is for: `selected` must not leak ---------------
 	selu := []IndexD{{Name: "", Pkgs: []PkgD{
